@@ -90,7 +90,12 @@ def extract():
         raise Shape("MAX_REASSEMBLY")
     out["MAX_REASSEMBLY"] = mr[0]
     for extra in EXTRACTORS:
-        extra(out)
+        try:
+            extra(out)
+        except Shape:
+            raise
+        except Exception as e:  # an AST shape we did not anticipate: fail closed
+            raise Shape(f"{extra.__name__}: {type(e).__name__}: {e}")
     return out
 
 
@@ -144,6 +149,63 @@ def ip_numbers(out):
     out["Ip"] = d
 
 
+
+def enum_values(tree, clsname):
+    for n in tree.body:
+        if isinstance(n, ast.ClassDef) and n.name == clsname:
+            vals = []
+            for a in n.body:
+                if isinstance(a, ast.Assign) and isinstance(a.targets[0], ast.Name):
+                    v = a.value
+                    if isinstance(v, ast.Tuple):
+                        v = v.elts[0]
+                    if isinstance(v, ast.Constant) and isinstance(v.value, int):
+                        vals.append(v.value)
+            return vals
+    raise Shape(f"enum {clsname}")
+
+
+@extractor
+def pdu_numbers(out):
+    t = parse("pdu.py")
+    d = {}
+    # STRUCT_x = struct.Struct("fmt").pack  -> Assign(value=Attribute(value=Call(func=Attribute(attr=Struct))))
+    fm = []
+    for n in t.body:
+        if isinstance(n, ast.Assign) and isinstance(n.value, ast.Attribute) and isinstance(n.value.value, ast.Call):
+            c = n.value.value
+            if getattr(c.func, "attr", getattr(c.func, "id", "")) == "Struct":
+                fm.append(c.args[0].value)
+    d["bleFormats"] = fm
+    d["bleStatusValues"] = enum_values(t, "PDUStatus")
+    enc = func(t, "encode_pdu")
+    subs = [n.right.value for n in ast.walk(enc) if isinstance(n, ast.BinOp) and isinstance(n.op, ast.Sub) and getattr(n.left, "id", "") == "fragment_size" and isinstance(n.right, ast.Constant)]
+    if len(subs) != 2:
+        raise Shape("encode_pdu fragment_size - k")
+    d["bleFirstOverhead"], d["bleContOverhead"] = subs
+    flags = {n.value for f in ("encode_pdu", "decode_pdu_continuation") for n in ast.walk(func(t, f)) if isinstance(n, ast.Constant) and n.value == 0x80}
+    cont = func(t, "decode_pdu_continuation")
+    masks = [n.right.value for n in ast.walk(cont) if isinstance(n, ast.BinOp) and isinstance(n.op, ast.BitAnd) and isinstance(n.right, ast.Constant)]
+    encflag = [n.args[0].value for n in ast.walk(enc) if isinstance(n, ast.Call) and getattr(n.func, "id", "") == "STRUCT_BB_PACK" and isinstance(n.args[0], ast.Constant)]
+    if len(masks) != 1 or len(encflag) != 1 or masks[0] != encflag[0]:
+        raise Shape("continuation flag")
+    d["contFlag"] = masks[0]
+    t2 = parse("controller/coap/pdu.py")
+    d["coapStatusValues"] = enum_values(t2, "PDUStatus")
+    fm = []
+    for n in ast.walk(t2):
+        if isinstance(n, ast.Call) and getattr(n.func, "attr", "") in ("pack", "unpack") and getattr(n.func.value, "id", "") == "struct":
+            fm.append(n.args[0].value)
+    d["coapFormats"] = fm
+    dec = func(t2, "decode_pdu")
+    cmp = [n for n in ast.walk(dec) if isinstance(n, ast.Compare) and isinstance(n.left, ast.BinOp) and isinstance(n.left.op, ast.BitAnd)]
+    if len(cmp) != 1 or not isinstance(cmp[0].ops[0], ast.NotEq):
+        raise Shape("coap control check")
+    d["coapControlMask"] = cmp[0].left.right.value
+    d["coapControlValue"] = cmp[0].comparators[0].value
+    out["Pdu"] = d
+
+
 # --------------------------------------------------------------------------- emission
 
 def emit(out):
@@ -186,6 +248,21 @@ def emit_ip(out, files):
             lines.append(f"def {k} : List Nat := {lean_list(v)}")
     lines.append("end HapVerif.Gen.Ip")
     files["Ip.lean"] = "\n".join(lines) + "\n"
+
+
+@emitter
+def emit_pdu(out, files):
+    d = out["Pdu"]
+    lines = ["/-! GENERATED by tools/translate.py from pdu.py and controller/coap/pdu.py - do not edit. -/", "namespace HapVerif.Gen.Pdu"]
+    for k, v in d.items():
+        if isinstance(v, int):
+            lines.append(f"def {k} : Nat := {v}")
+        elif isinstance(v, list) and all(isinstance(x, int) for x in v):
+            lines.append(f"def {k} : List Nat := {lean_list(v)}")
+        elif isinstance(v, list):
+            lines.append(f"def {k} : List String := {lean_list(v, lean_str)}")
+    lines.append("end HapVerif.Gen.Pdu")
+    files["Pdu.lean"] = "\n".join(lines) + "\n"
 
 
 def main():
